@@ -73,7 +73,26 @@ def run(res, tier, seed, replay):
     PRES = {"r4", "r5", "r6", "r7", "r8", "r9", "r10", "r11", "r13", "r14"}
     for cid, v in M.items():
         case, c = monc[cid]
-        if v.startswith("STUCK") and " 0" in v[-3:]: res.unknown.append(dict(case=case, monitor=v)); continue
+        if v.startswith("STUCK") and " 0" in v[-3:]:
+            # the ISA fragment has no such instruction.  One more decode by hand before giving up: an A32 `B<cond> label` as the first word written
+            # (a direct branch: it cannot change the instruction set and its target is a multiple of 4)
+            try:
+                wr = [p for p in simlib.impl_writes(simlib.canon_impl(impl[cid])[1]).split(",") if p]
+                ent = c[3] & ~1
+                first = next((bytes.fromhex(h) for a_, h in (x.split(":") for x in wr) if int(a_, 16) == ent), None)
+                if first and not (c[3] & 1) and len(first) >= 4:
+                    w = int.from_bytes(first[:4], "little")
+                    if (w >> 24) & 0xF == 0xA and (w >> 28) == 0xE:
+                        imm = w & 0xFFFFFF; imm -= (1 << 24) if imm & 0x800000 else 0
+                        dest = (ent + 8 + 4 * imm) & 0xFFFFFFFF
+                        fake = int(case["fake"], 16)
+                        if dest != fake:          # fake is odd (Thumb) or not where the branch goes
+                            res.violation(f"the first word written at the A32 entry is `b {dest:#x}` (0x{w:08x}): the call arrives at {dest:#x} in A32 state, the fake is at {fake & ~1:#x} in {'T32' if fake & 1 else 'A32'} state "
+                                          "(a direct branch cannot interwork and drops the low two bits)", case, v)
+                            continue
+            except Exception:
+                pass
+            res.unknown.append(dict(case=case, monitor=v)); continue
         fake = int(case["fake"], 16)
         if not v.startswith("REACHED") or (("thumb=true" in v) != bool(fake & 1)):
             res.violation("the 12 bytes written by the implementation do not load the word holding the fake and interwork to it", case, v); continue
